@@ -51,7 +51,7 @@ def optInt (s : String) : Option Int := if s = "none" then none else some (intD 
 def ingestTags (cfg : Cfg) (s : State) (s' : State) (o : Obs) : List String :=
   let em := if s.queue.length ≥ cfg.maxQ then (if s.queue.length / 2 = 0 then ["ingest:capacity-noop"] else
       ["ingest:emergency"] ++ (if s'.emLogged > s.emLogged then ["ingest:emergency-dropped"] else [])) else []
-  let qa := (enqueue cfg s 0 .expired 0).queue.length
+  let qa := (enqueue cfg s 0 .expired 0 .now).queue.length
   let au := match o with
     | .hang => ["ingest:hang"]
     | _ => if qa ≥ cfg.autoThr then (if qa / 2 = 0 then ["ingest:auto-all"] else ["ingest:auto"]) ++
@@ -70,7 +70,9 @@ def doOp (d : DSt) (op : Op) : DSt × String :=
         | some k => if k = 0 then "digest:zero" else if 0 < k then "digest:pos" else "digest:neg"] ++
       (if s'.reported > d.st.reported then ["digest:errors"] else []) ++
       (if d.st.queue.isEmpty then ["digest:empty"] else [])
-    | .autophagy => [if s'.expiredRet > d.st.expiredRet then "autophagy:some" else "autophagy:none"]
+    | .autophagy => [match o with
+        | .raised => "autophagy:raises-on-aware-timestamp"
+        | _ => if s'.expiredRet > d.st.expiredRet then "autophagy:some" else "autophagy:none"]
     | .advance _ => []
     | .clearBin => []
   let os := match o with
@@ -79,6 +81,7 @@ def doOp (d : DSt) (op : Op) : DSt × String :=
     | .dead => "dead"
     | .digest r => s!"digest {r.disposed} {r.errors} {showBool (r.errors == 0)} {showBin r.recycledKeys}"
     | .removed n => s!"removed {n}"
+    | .raised => "raise:TypeError"
   let line := match o with
     | .hang => "hang"
     | .dead => "dead"
@@ -87,7 +90,7 @@ def doOp (d : DSt) (op : Op) : DSt × String :=
 
 def parseAct (a : String) : Option Act :=
   match a.splitOn "," with
-  | ["I", ty, id, c] => some (.op (.ingest (natD id) (tyOf ty) (natD c)))
+  | ["I", ty, id, c] => some (.op (.ingest (natD id) (tyOf ty) (natD c) .now))
   | ["P", tid, k] => some (.pop (natD tid) (optInt k))
   | ["T", tid] => some (.iter (natD tid))
   | ["A"] => some (.op .autophagy)
@@ -103,7 +106,12 @@ def dumpConc (s : State) : String :=
     s!"rep={s.reported}", s!"auto={s.autoLogged}", s!"em={s.emLogged}", s!"exp={s.expiredRet}",
     s!"pend={s.gPending.length}" ]
 
-def step' (d : DSt) (toks : List String) : DSt × String :=
+def step' (d : DSt) (toks0 : List String) : DSt × String :=
+  -- `@k` in front of an operation names the (long-lived) thread that makes the call; between calls the lock is
+  -- free, so the sequential model does not depend on it
+  let toks := match toks0 with
+    | t :: rest => if t.startsWith "@" then rest else toks0
+    | [] => toks0
   match toks with
   | ["cfg", mq, at_, ret, modes, tox, ontox, lock] =>
     ({ cfg := mkCfg (intD mq).toNat (intD at_).toNat (intD ret) modes tox ontox lock, st := {} }, "ok")
@@ -116,9 +124,11 @@ def step' (d : DSt) (toks : List String) : DSt × String :=
       let s' := runActs d.cfg d.st (acts.filterMap parseAct)
       ({ d with st := s' }, "conc | " ++ dumpConc s' ++ " ## conc:linearised")
     | _ => (d, "conc")
-  | ["ingest", ty, id, c] => doOp d (.ingest (natD id) (tyOf ty) (natD c))
-  | ["ingest_error", id, c] => if natD c = 0 then (d, "bad-op") else doOp d (.ingest (natD id) .failedOp (natD c))
-  | ["ingest_sensitive", id, c] => doOp d (.ingest (natD id) .toxic (natD c))
+  | ["ingest", ty, id, c] => doOp d (.ingest (natD id) (tyOf ty) (natD c) .now)
+  | ["ingestat", st, ty, id, c] =>
+    doOp d (.ingest (natD id) (tyOf ty) (natD c) (if st = "aware" then .aware else .at (intD st)))
+  | ["ingest_error", id, c] => if natD c = 0 then (d, "bad-op") else doOp d (.ingest (natD id) .failedOp (natD c) .now)
+  | ["ingest_sensitive", id, c] => doOp d (.ingest (natD id) .toxic (natD c) .now)
   | ["digest", k] => doOp d (.digest (optInt k))
   | ["autophagy"] => doOp d .autophagy
   | ["adv", us] => doOp d (.advance (natD us))
